@@ -22,7 +22,12 @@ ASSUMPTIONS = ['pandas: ffill/bfill(limit), fillna(value, limit), boolean-mask s
                'Decreasing / shuffled / repeated-label indexes are generated for the methods that never look at labels (numbers, ffill, bfill, nona)',
                'float values are exact multiples of 1/4; dtype changes, axis=1, interpolation methods, pad, date methods, '
                'nona(value != nan) are not modelled; limit=0 (outside the quantifier) is not generated',
-               'input immutability: proved on the object store PygModel/FillAlias.lean under the assumption, observed by snapshot on every line, that pandas ffill / fillna / bfill / boolean selection / .loc / concat return new objects']
+               'input immutability: proved on the object store PygModel/FillAlias.lean under the assumption, observed by snapshot on every line, that pandas ffill / fillna / bfill / boolean selection / .loc / concat return new objects',
+               'input immutability seen from the RESULT (review t4 2.1): on every line and in the laws every cell of the result is overwritten and the argument compared with its snapshot '
+               '(a writable numpy view of the argument is a finding - C12-E2, repaired); `res is x` for an empty method list and read-only results are skipped. The store model covers `_df_fillna` only, not `_nona`',
+               'not modelled, not generated: 2-d inputs WITHOUT columns ((n, 0) arrays, `pd.DataFrame(index=idx)`) - probed: ffill_na / ffill_0 raise "ValueError: No objects to concatenate" '
+               '(pd.concat of zero columns), every other method answers; the wire cannot carry the row count of a frame without columns; `edge` values other than None / 1 / -1 '
+               '(outside the docstring; code and model: None / err Other, for arrays as for pandas objects since 002fba9), bool methods (is_num(True))']
 S = 4
 METHODS = ['ffill', 'bfill', 'backfill', 'ffill_na', 'ffill_0', 'fnna', 'nona', 'c:0', 'c:6', 'c:-3', 'c:4']
 VALS = [1.0, 2.0, 0.0, -1.5, 0.25, 3.0, 7.75, -4.0]
@@ -275,7 +280,34 @@ def run_line(state, sx):
         return 'violation columns %s' % list(res.columns)
     if kind == 'a2' and res.shape[1:] != x.shape[1:]:
         return 'violation shape %s' % (res.shape,)
-    return 'ok ' + enc_obj(kind, res)
+    reply = 'ok ' + enc_obj(kind, res)
+    if result_reaches_input(x, res, before):
+        return 'violation ' + ALIAS_MSG
+    return reply
+
+
+ALIAS_MSG = 'result-aliases-input: writing into the result changes the argument'
+
+
+def result_reaches_input(x, res, before):
+    """"the input object is not modified" seen from the result: a result that is a writable VIEW of the argument (numpy basic
+    slicing `a[k:]`) hands the caller a handle through which the argument changes.  Every cell of the result is overwritten and
+    the argument compared with its snapshot.  `res is x` (an empty method list hands the object back) is no hidden alias and is
+    skipped; a read-only result (the `.values` of a copy-on-write pandas object) cannot be written into."""
+    if res is x:
+        return False
+    try:
+        if isinstance(res, np.ndarray):
+            if not res.flags.writeable or res.size == 0:
+                return False
+            res[...] = 99.0
+        elif isinstance(res, pd.Series):
+            res.iloc[:] = 99.0
+        else:
+            res.iloc[:, :] = 99.0
+    except Exception:
+        return False
+    return not W.same_pd(x, before)
 
 
 def compare(case, i, line, ir, mr):
@@ -447,6 +479,8 @@ def laws(rng, tier, ctx):
             yield Finding('violation', case, 'the input object was modified')
         elif (kind in ('s', 'df') and rl != el) or len(rc) != len(ec) or not all(same_cols(a, b) for a, b in zip(rc, ec)):
             yield Finding('violation', case, 'nona did not remove exactly the all-NaN rows: %s %s' % (rl, rc))
+        elif result_reaches_input(x, res, before):
+            yield Finding('violation', case, ALIAS_MSG)
     # nona(x, edge = 1 / -1): only the all-NaN rows at ONE end go (interior ones stay); given an array the result is the
     # values of the result for the corresponding Series / DataFrame (the docstring: nona(np.array([1,nan,2,3]), edge = 1) is a)
     for _ in range(m_cases // 4):
@@ -486,6 +520,11 @@ def laws(rng, tier, ctx):
             count += 1
             if not W.same_pd(np.asarray(pres.values, dtype=float).reshape(res.shape) if pres.values.size == res.size else pres.values, res):
                 yield Finding('violation', case, 'array result differs from the values of the Series/DataFrame result: %s vs %s' % (res.tolist(), pres.values.tolist()))
+                continue
+        # the result must not be a handle on the argument (a writable numpy view): overwrite it, look at the argument
+        count += 1
+        if kind in ('a1', 'a2') and res.size and np.shares_memory(res, x) and res.flags.writeable or result_reaches_input(x, res, before):
+            yield Finding('violation', case, ALIAS_MSG)
     yield count
 
 
